@@ -404,6 +404,30 @@ impl Sim {
         Ok(n)
     }
 
+    /// Like `start`, with a user-provided outbound request layer that tags requests with `h-user`.
+    pub fn start_with_user_layer(&self, spec: &NodeSpec) -> anyhow::Result<Network> {
+        let node = self.fabric.nodes();
+        let svc = HarnessSvc::new(node, self.svc.clone());
+        let layer = tower::util::MapRequestLayer::new(|mut r: Request<Bytes>| {
+            r.headers_mut().insert("h-user".into(), "1".into());
+            r
+        });
+        let mut b = Network::bind("127.0.0.1:0")
+            .private_key(key_bytes(spec.key))
+            .server_name(spec.name.clone())
+            .config(spec.config.clone())
+            .outbound_request_layer(layer);
+        if let Some(a) = &spec.alt {
+            b = b.alternate_server_name(a.clone());
+        }
+        let n = b.start(svc)?;
+        self.labels
+            .lock()
+            .unwrap()
+            .insert(n.peer_id(), format!("n{node}"));
+        Ok(n)
+    }
+
     pub fn node_of(&self, n: &Network) -> usize {
         self.fabric.node_of(n.local_addr()).expect("node")
     }
@@ -478,4 +502,163 @@ pub fn known_peer(peer_id: PeerId, affinity: anemo::types::PeerAffinity, addrs: 
 
 pub fn ms(n: u64) -> Duration {
     Duration::from_millis(n)
+}
+
+// ---------------------------------------------------------------------------------------------
+// RPC helpers shared by several checks
+// ---------------------------------------------------------------------------------------------
+
+#[derive(Clone, Debug)]
+pub struct RpcSpec {
+    pub id: String,
+    pub route: String,
+    pub headers: BTreeMap<String, String>,
+    pub body: Bytes,
+}
+
+impl RpcSpec {
+    pub fn new(id: &str) -> Self {
+        let mut headers = BTreeMap::new();
+        headers.insert("id".to_string(), id.to_string());
+        RpcSpec {
+            id: id.to_string(),
+            route: "/".to_string(),
+            headers,
+            body: Bytes::new(),
+        }
+    }
+    pub fn route(mut self, r: &str) -> Self {
+        self.route = r.to_string();
+        self
+    }
+    pub fn header(mut self, k: &str, v: impl Into<String>) -> Self {
+        self.headers.insert(k.to_string(), v.into());
+        self
+    }
+    pub fn body(mut self, b: Bytes) -> Self {
+        self.body = b;
+        self
+    }
+    pub fn to_request(&self) -> Request<Bytes> {
+        let mut r = Request::new(self.body.clone()).with_route(self.route.clone());
+        for (k, v) in &self.headers {
+            r.headers_mut().insert(k.clone(), v.clone());
+        }
+        r
+    }
+}
+
+#[derive(Clone, Debug)]
+pub struct RpcOk {
+    pub status: StatusCode,
+    pub headers: BTreeMap<String, String>,
+    pub body: Bytes,
+    pub peer_id: Option<PeerId>,
+}
+
+#[derive(Clone, Debug)]
+pub struct RpcOutcome {
+    pub id: String,
+    pub result: Result<RpcOk, String>,
+    pub t_start_us: u64,
+    pub t_end_us: u64,
+}
+
+pub async fn do_rpc(sim: &Sim, net: &Network, peer: PeerId, spec: &RpcSpec) -> RpcOutcome {
+    let t_start_us = sim.now_us();
+    let r = net.rpc(peer, spec.to_request()).await;
+    let t_end_us = sim.now_us();
+    RpcOutcome {
+        id: spec.id.clone(),
+        result: match r {
+            Ok(resp) => Ok(RpcOk {
+                status: resp.status(),
+                headers: resp.headers().iter().map(|(k, v)| (k.clone(), v.clone())).collect(),
+                peer_id: resp.peer_id().copied(),
+                body: resp.into_body(),
+            }),
+            Err(e) => Err(format!("{e:#}")),
+        },
+        t_start_us,
+        t_end_us,
+    }
+}
+
+/// Compare a successful response with what the harness service computes for this request.
+pub fn check_response(spec: &RpcSpec, ok: &RpcOk, callee: PeerId) -> Result<(), String> {
+    let (status, headers, body) = expected_response(&spec.headers, &spec.route, &spec.body);
+    if ok.status != status {
+        return Err(format!("rpc {}: status {:?}, expected {:?}", spec.id, ok.status, status));
+    }
+    if ok.headers != headers {
+        return Err(format!(
+            "rpc {}: response headers {:?}, expected {:?}",
+            spec.id,
+            abbreviate_map(&ok.headers),
+            abbreviate_map(&headers)
+        ));
+    }
+    if ok.body != body {
+        return Err(format!(
+            "rpc {}: response body differs (got {} bytes hash {:x}, expected {} bytes hash {:x})",
+            spec.id,
+            ok.body.len(),
+            crate::explore::fnv(&ok.body),
+            body.len(),
+            crate::explore::fnv(&body)
+        ));
+    }
+    if ok.peer_id != Some(callee) {
+        return Err(format!("rpc {}: response attributed to {:?}, not the callee", spec.id, ok.peer_id));
+    }
+    Ok(())
+}
+
+pub fn abbreviate_map(m: &BTreeMap<String, String>) -> BTreeMap<String, String> {
+    m.iter()
+        .map(|(k, v)| {
+            let v = if v.len() > 40 {
+                format!("{}..({} bytes)", &v[..20], v.len())
+            } else {
+                v.clone()
+            };
+            (k.clone(), v)
+        })
+        .collect()
+}
+
+/// What the callee's service saw for this request id must be exactly what was sent, once.
+pub fn check_seen(sim: &Sim, spec: &RpcSpec, callee_node: usize, caller: PeerId) -> Result<usize, String> {
+    let reqs = sim.svc.requests.lock().unwrap();
+    let seen: Vec<&SeenRequest> = reqs
+        .iter()
+        .filter(|r| r.headers.get("id") == Some(&spec.id))
+        .collect();
+    if seen.len() > 1 {
+        return Err(format!("request {} was delivered to a handler {} times", spec.id, seen.len()));
+    }
+    for s in &seen {
+        if s.node != callee_node {
+            return Err(format!("request {} was delivered to node {} instead of {}", spec.id, s.node, callee_node));
+        }
+        if s.route != spec.route
+            || s.headers != spec.headers
+            || s.body_len != spec.body.len()
+            || s.body_hash != crate::explore::fnv(&spec.body)
+        {
+            return Err(format!(
+                "request {} reached the handler altered: route {:?} headers {:?} body {} bytes (sent route {:?}, {} bytes)",
+                spec.id,
+                s.route,
+                abbreviate_map(&s.headers),
+                s.body_len,
+                spec.route,
+                spec.body.len()
+            ));
+        }
+        if s.peer_id != Some(caller) {
+            return Err(format!("request {} attributed to {:?}, not the caller", spec.id, s.peer_id));
+        }
+    }
+    Ok(seen.len())
 }
